@@ -225,8 +225,9 @@ def stage_toy(ctx):
             # for the binding self-test: a signing case off the paths of the known defects (recovery id 0 or 1)
             if rec["k"] == "sign" and "plain" not in first and rec["recid"] < 2 and cname == "p43":
                 first["plain"] = rec
+        cov = (not q) and cname == "p43"          # vacuity guard once per thorough run (coverage doubles TLC's time)
         ctx.tlc("MC_MsgReplay", "MC_MsgReplay_%s_%s" % (cname, tier), on_record=on, keep_records=False, timeout=3000,
-                coverage=False)
+                coverage=cov, require_actions=("RetryIncrementNonce", "SignEmit", "RecEmit", "TextEmit") if cov else ())
         fails, counts = st.finish()
         ctx.log("toy %s: %d cases replayed on pycoin (%s), %d disagreements" % (
             cname, st.n, ", ".join("%s=%d" % kv for kv in sorted(counts.items()) if kv[0].startswith("toy.")), len(fails)))
@@ -503,6 +504,11 @@ def _one_trace(args):
           "sym": sym, "ev": []}
     sig = net.msg.sign(key, msg)
     tr["ev"].append({"op": "sign", "sig": drv.cps_of(sig), "digest": _b32(net.msg.hash_for_signing(msg))})
+    rc = drv.call(net.msg.pair_for_message_hash, sig, net.msg.hash_for_signing(msg))
+    if rc[0] == "ok":
+        tr["ev"].append({"op": "recover", "pub": [_b32(rc[1][0][0]), _b32(rc[1][0][1])], "comp": bool(rc[1][1])})
+    else:
+        tr["ev"].append({"op": "recover", "pub": [], "comp": False, "exc": rc[1]})
     # verification calls: the signer (key, address in both forms), another key, another message, another network
     d2 = rnd.randrange(1, _N)
     sym2, name2 = rnd.choice([x for x in nets if x[1] != name])
